@@ -49,7 +49,8 @@ CHECKS = {
         'assumption (each order is a forked path); z3 proves that complete() takes the prescribed values, that a solution of the restricted system solves '
         'every non-eliminated equation, and that restrict/extend/restrict_matrix/restrict_rhs are consistent; slice_indices/boundary_dofs/boundary_cells/'
         'combine_bcs are checked for all shapes <= 3x3x3, indices, flips and bdspecs; dense and sparse matrices with elim_rows; compute_initial_condition_01 runs with a symbolic '
-        'time knot vector (symbolic interval, coincident knots allowed) and linalg.solve as a contract whose solvability is an obligation.',
+        'time knot vector (symbolic interval, coincident knots allowed) and linalg.solve as a contract whose solvability is an obligation; compute_dirichlet_bc with the interpolation '
+        'replaced by a symbolic coefficient array: every face dof and component block exactly once, paired with the coefficient of its own face position (2D/3D, scalar/vector data).',
    note='Trusted: z3, symsparse stub, reals for doubles. Index inputs are decided by exhaustive forking within the bound (n<=4/5), matrix/vector data by the solver.',
    technique='symbolic execution of real Python source + z3 (LRA/NRA), index order by solver-driven forking'),
  'C14': dict(
@@ -71,7 +72,7 @@ CHECKS = {
         'F(y)=Ky+g with symbolic M, K, g, x, tau (1x1, 2x2); newton inside the step is replaced by its contract evaluated on the real closure, make_solver by '
         '"B y = r"; z3 proves the stage equations, the weight formulas (main/embedded), the returned F(x_new) and exact integration of y\'=const for every '
         'shipped tableau; order conditions up to the documented order are discharged as ground queries on the exact rationals of the constants (tolerance 1e-8); '
-        'the step-size factor of the adaptive driver stays in [0.2, 5] for every error estimate; constant/adaptive drivers (incl. the constant-step fallback, the Fx cache and data-dict contracts, time arguments with t0 != 0) and newton are verified against unconstrained '
+        'two Rosenbrock steps sharing the data dict and a Jacobian buffer each satisfy their own stage equations; the step-size factor of the adaptive driver stays in [0.2, 5] for every error estimate; constant/adaptive drivers (incl. the constant-step fallback, the Fx cache and data-dict contracts, time arguments with t0 != 0) and newton are verified against unconstrained '
         'stepper/residual stubs (<= 4 steps / attempts, maxiter <= 3); driver counterexamples are replayed on the real drivers with scripted error estimates.',
    note='Trusted: z3, stubs (solver contract, newton contract, norm = fresh non-negative), reals for doubles, Rosenbrock order reading (main = err_order+1). '
         'Known finding: coeffs_dirk34 is inconsistent (known_findings.json).',
@@ -80,11 +81,11 @@ CHECKS = {
    category='other', design_ref='4/C11',
    text='Bounded symbolic verification: the transliterated relaxation_cy kernels and solvers.gauss_seidel (sparse and dense routes) run on CSR structures '
         'with symbolic data (incl. unsorted columns), symbolic x, b and symbolic index sequences; z3 proves equality with the textbook Gauss-Seidel recurrence '
-        '(forward/backward/symmetric, <=2 iterations), the fixed-point property, and the inductive energy step (one row update of a symmetric system with '
+        '(forward/backward/symmetric, <=2 iterations, index lists of length 0..3), the fixed-point property, and the inductive energy step (one row update of a symmetric system with '
         'a_ii > 0 never increases the energy error); iterative_solve is verified against an unconstrained step stub (stopping rule), twogrid for array '
         'starting vectors (also integer-typed ones, with numpy\'s integer-array semantics modelled) and the Galerkin orthogonality after one cycle, local_mg_step for the fixed-point property with all five smoothers on symbolic '
         'two-level systems, and the energy norm of the error does not increase in one cycle with exact subspace solves on symbolic SPD systems (A = L L^T; orthogonality and semidefiniteness lemmas per exact solve, '
-        'final inequality by a sound linear relaxation).',
+        'final inequality by a sound linear relaxation); solve_hmultigrid hands tolerance, iteration limit, strategy and smoother to the generic driver unchanged.',
    note='Trusted: z3, cyx transliteration, symsparse/CSR stubs, solver contract (B nonsingular, B y = r), norm stubs, reals for doubles. '
         'Bound: n <= 3/4, maxiter <= 3. Hierarchical smoothing sets/prolongators on real spaces are outside this check.',
    technique='symbolic execution of transliterated Cython + Python source with z3 (NRA); inductive energy step; lemma-based proof of energy non-increase with linear relaxation (monomials as atoms)'),
@@ -92,7 +93,7 @@ CHECKS = {
    category='other', design_ref='4/C19',
    text='make_knots (source exec\'d with documented-algorithm stubs for np.arange/linspace/repeat/concatenate on symbolic-length sequences) is decided '
         'under two encodings of double arithmetic: the standard model of rounding (reals, |delta|<=2^-53 per operation; unsat is sound for doubles) proves '
-        'count/monotonicity/strict interior position of the breakpoints for all a, b, n in the stated range, and the exact IEEE-754 encoding (QF_FP, n as a '
+        'count/monotonicity/strict interior position of the breakpoints (and, if the end knots are computed rather than copied, that they are exactly a and b) for all a, b, n in the stated range, and the exact IEEE-754 encoding (QF_FP, n as a '
         'bit-vector) hunts for double counterexamples that are replayed on the real numpy. KnotVector queries (mesh, support, mesh-support, span indices, '
         'findspan, first_active, Greville, refine, ==) and Spline.derivative run on fully symbolic knot vectors (coincident knots included) against '
         'direct definitions / the Cox-de Boor oracle.',
